@@ -110,6 +110,17 @@ func (rc *resources) checkMemory(rsvp int64, prio uint8) error {
 	limit := rc.limit.GetMemoryLimit()
 	if limit == math.MaxInt64 {
 		// Special case where we've set max limits.
+		// Even then the total must stay representable: without this check
+		// rc.memory wraps around to a negative value.
+		if _, addOk := addInt64WithOverflow(rc.memory, rsvp); !addOk {
+			return &ErrMemoryLimitExceeded{
+				current:   rc.memory,
+				attempted: rsvp,
+				limit:     limit,
+				priority:  prio,
+				err:       network.ErrResourceLimitExceeded,
+			}
+		}
 		return nil
 	}
 
